@@ -27,6 +27,7 @@ import (
 
 	simapp "github.com/KiraCore/sekai/app"
 	kiratypes "github.com/KiraCore/sekai/types"
+	custodytypes "github.com/KiraCore/sekai/x/custody/types"
 	govtypes "github.com/KiraCore/sekai/x/gov/types"
 	multistakingtypes "github.com/KiraCore/sekai/x/multistaking/types"
 	tokenstypes "github.com/KiraCore/sekai/x/tokens/types"
@@ -236,6 +237,7 @@ type hist struct {
 	steps    []string
 	jsteps   []map[string]interface{}
 	multiKey *keyT
+	env      string
 	init     string
 	check    int // class of CheckTx on the first transaction (-1: not run)
 }
@@ -486,6 +488,7 @@ type scenario struct {
 	Strategy string `json:"strategy"`           // see strategies
 	Follow   string `json:"follow"`             // none replay next-replay resequence
 	TypeURL  string `json:"type_url,omitempty"` // msg = any: the registered message type used
+	Env      string `json:"env,omitempty"`      // mode switches of the ante chain: "" (healthy) weak custody execfee freeze
 }
 
 var strategies = []string{"honest", "attacker-key", "bitflip", "seq-plus", "seq-minus", "signed-seq-plus", "chain", "othermsg", "accnum",
@@ -644,6 +647,9 @@ func (h *hist) build(sc scenario, r *hx.Rng, A, B *acctT, attacker *keyT, edKey 
 		signers = []*acctT{A, B}
 	}
 	p.victim = victim
+	if h.env == "execfee" && p.fee < 1000 {
+		p.fee = 1000 // the execution-fee table demands a prepaid fee
+	}
 	sp := signParams{key: A.key, slotSeq: aseq, signSeq: aseq, chain: h.w.ctx().ChainID(), accnum: anum}
 	ethKey := A.key  // key signing the raw Ethereum transaction
 	ethNonce := aseq // nonce of the raw Ethereum transaction
@@ -973,9 +979,40 @@ func (h *hist) describe(p *txPlan, bz []byte) (string, []string) {
 	return txCoq, signerIDs
 }
 
+// envRejects: the verdict of the chain's mode filters that the model does not contain, computed
+// independently from the documented rule: on a weak network (fewer validators than min_validators) only
+// bond-denom sends up to poor_network_max_bank_send and the listed governance messages are allowed.
+func (h *hist) envRejects(p *txPlan) bool {
+	if h.env != "weak" {
+		return false
+	}
+	ctx := h.w.ctx()
+	props := h.w.app.CustomGovKeeper.GetNetworkProperties(ctx)
+	allowed := h.w.app.CustomGovKeeper.GetPoorNetworkMessages(ctx)
+	for _, m := range p.msgs {
+		if snd, ok := m.(*banktypes.MsgSend); ok {
+			if len(snd.Amount) != 1 || snd.Amount[0].Denom != denom || snd.Amount[0].Amount.Uint64() > props.PoorNetworkMaxBankSend {
+				return true
+			}
+			continue
+		}
+		okm := false
+		for _, a := range allowed.Messages {
+			if a == kiratypes.MsgType(m) {
+				okm = true
+			}
+		}
+		if !okm {
+			return true
+		}
+	}
+	return false
+}
+
 func (h *hist) step(p *txPlan, bz []byte, what string) (accepted bool) {
 	w := h.w
 	txCoq, signerIDs := h.describe(p, bz)
+	envRej := h.envRejects(p)
 	// deliver through ABCI
 	var res abci.ResponseDeliverTx
 	pn := hx.Try(func() { res = w.app.DeliverTx(abci.RequestDeliverTx{Tx: bz}) })
@@ -996,12 +1033,12 @@ func (h *hist) step(p *txPlan, bz []byte, what string) (accepted bool) {
 		msgFailed = true
 	}
 	post := h.observe()
-	h.steps = append(h.steps, fmt.Sprintf("mkStep (%s) %s %d %s", txCoq, hx.List(signerIDs), class, post))
+	h.steps = append(h.steps, fmt.Sprintf("mkStep (%s) %s %d %s %s", txCoq, hx.List(signerIDs), class, post, hx.B(envRej)))
 	lg := res.Log
 	if len(lg) > 160 {
 		lg = lg[:160]
 	}
-	h.jsteps = append(h.jsteps, map[string]interface{}{"what": what, "tx_hex": hex.EncodeToString(bz), "code": res.Code, "codespace": res.Codespace, "log": lg, "panic": pn, "message_failed_after_ante": msgFailed, "post": post})
+	h.jsteps = append(h.jsteps, map[string]interface{}{"what": what, "tx_hex": hex.EncodeToString(bz), "code": res.Code, "codespace": res.Codespace, "log": lg, "panic": pn, "message_failed_after_ante": msgFailed, "mode_filter_rejects": envRej, "post": post})
 	return class == 0
 }
 
@@ -1107,7 +1144,11 @@ func main() {
 			(sc.Msg == "bank_send" || sc.Msg == "identity" || sc.Msg == "any") {
 			sc.Msg, sc.TypeURL = "two_msgs", "" // the key-path modes can sign several messages: replace / reorder among them
 		}
+		if sc.Env == "custody" && sc.Msg == "any" {
+			sc.Msg, sc.TypeURL = "identity", "" // (custody's own messages are checked against the custody key)
+		}
 		h := newHist(nextID)
+		h.env = sc.Env
 		nextID++
 		tag := fmt.Sprintf("s%d-h%d-", seed, h.id)
 		kA, kB, kX := newKey(1, tag+"A", false), newKey(2, tag+"B", false), newKey(3, tag+"X", false)
@@ -1121,6 +1162,15 @@ func main() {
 		}
 		A := h.setupAccount("A", ownerKey, sc.Acct, uint64(r.Intn(4)))
 		B := h.setupAccount("B", kB, "onrecord", uint64(r.Intn(3)))
+		if sc.Env == "custody" {
+			for _, a := range []*acctT{A, B} {
+				if a.state != "missing" {
+					w.app.CustodyKeeper.SetCustodyRecord(w.ctx(), custodytypes.CustodyRecord{Address: a.addr, CustodySettings: &custodytypes.CustodySettings{CustodyEnabled: true}})
+					// an (empty) custodian list: without one the custody decorator dereferences nil on a bank send
+					w.app.CustodyKeeper.AddToCustodyCustodians(w.ctx(), custodytypes.CustodyCustodiansRecord{Address: a.addr, CustodyCustodians: &custodytypes.CustodyCustodianList{Addresses: map[string]bool{}}})
+				}
+			}
+		}
 		queue = append(queue, &pending{sc: sc, h: h, A: A, B: B, kX: kX, kE: kE})
 		return h.id
 	}
@@ -1261,6 +1311,7 @@ func main() {
 		dist.Inc("acct:" + sc.Acct)
 		dist.Inc("attach:" + sc.Attach)
 		dist.Inc("follow:" + sc.Follow)
+		dist.Inc("env:" + map[bool]string{true: "healthy", false: sc.Env}[sc.Env == ""] + ":" + kind)
 		dist.Inc("strategy:" + sc.Strategy + ":" + kind)
 		for i, a := range accepted {
 			if i > 0 {
@@ -1272,10 +1323,56 @@ func main() {
 		if len(queue) == 0 {
 			return
 		}
-		w.endBlock() // commit the account set-up: CheckTx state = DeliverTx state
-		w.beginBlock()
-		for _, q := range queue {
-			exec(q)
+		gk := w.app.CustomGovKeeper
+		setProps := func(f func(*govtypes.NetworkProperties)) {
+			props := gk.GetNetworkProperties(w.ctx())
+			f(props)
+			if err := gk.SetNetworkProperties(w.ctx(), props); err != nil {
+				panic(err)
+			}
+		}
+		execFees := func(fee, failure uint64) {
+			for _, t := range []string{"send", kiratypes.MsgTypeRegisterIdentityRecords, kiratypes.MsgTypeEthereumTx} {
+				gk.SetExecutionFee(w.ctx(), govtypes.ExecutionFee{TransactionType: t, ExecutionFee: fee, FailureFee: failure})
+			}
+		}
+		for _, env := range []string{"", "custody", "execfee", "freeze", "weak"} {
+			n := 0
+			for _, q := range queue {
+				if q.sc.Env == env {
+					n++
+				}
+			}
+			if n == 0 {
+				continue
+			}
+			// switch the chain into the mode, commit (CheckTx state = DeliverTx state), run, switch back
+			switch env {
+			case "weak":
+				setProps(func(p *govtypes.NetworkProperties) { p.MinValidators = 77 })
+			case "freeze":
+				setProps(func(p *govtypes.NetworkProperties) { p.EnableTokenBlacklist, p.EnableTokenWhitelist = true, true })
+			case "execfee":
+				execFees(500, 300)
+			}
+			w.endBlock()
+			w.beginBlock()
+			if env == "weak" && w.app.CustomStakingKeeper.IsNetworkActive(w.ctx()) {
+				panic("the network did not become weak")
+			}
+			for _, q := range queue {
+				if q.sc.Env == env {
+					exec(q)
+				}
+			}
+			switch env {
+			case "weak":
+				setProps(func(p *govtypes.NetworkProperties) { p.MinValidators = 1 })
+			case "freeze":
+				setProps(func(p *govtypes.NetworkProperties) { p.EnableTokenBlacklist, p.EnableTokenWhitelist = false, false })
+			case "execfee":
+				execFees(0, 0)
+			}
 		}
 		queue = nil
 	}
@@ -1391,6 +1488,29 @@ func main() {
 			}
 		}
 	}
+	// ---- systematic part 5c: the authentication matrix crossed with the chain's mode switches
+	for _, env := range []string{"weak", "custody", "execfee", "freeze"} {
+		for _, md := range []string{"direct", "amino", "eip712", "raw-eth", "multi-direct"} {
+			ac, m := "onrecord", "bank_send"
+			switch md {
+			case "eip712":
+				ac = "eth-onrecord"
+			case "raw-eth":
+				ac, m = "eth-onrecord", "ethereum_tx"
+			case "multi-direct":
+				ac = "multisig-onrecord"
+			}
+			for _, st := range []string{"honest", "attacker-key", "bitflip", "seq-plus", "othermsg", "rewrap-append", "rewrap-fee", "feepayer-unsigned", "eth-forged-sender"} {
+				if st == "eth-forged-sender" && md != "raw-eth" {
+					continue
+				}
+				run(scenario{Msg: m, Mode: md, Attach: "none", Acct: ac, Strategy: st, Follow: "replay", Env: env})
+				run(scenario{Msg: m, Mode: md, Attach: "wrong", Acct: "new", Strategy: st, Follow: "replay", Env: env})
+			}
+			run(scenario{Msg: "identity", Mode: md, Attach: "right", Acct: ac, Strategy: "honest", Follow: "next-replay", Env: env})
+			run(scenario{Msg: "any", TypeURL: "/kira.gov.MsgVoteProposal", Mode: md, Attach: "wrong", Acct: ac, Strategy: "attacker-key", Follow: "replay", Env: env})
+		}
+	}
 	// ---- systematic part 6: multisig keys and MultiSignatureData
 	for _, md := range []string{"multi-direct", "multi-amino", "direct", "eip712"} {
 		for _, ac := range []string{"multisig-new", "multisig-onrecord", "onrecord", "eth-onrecord"} {
@@ -1410,6 +1530,9 @@ func main() {
 			Acct: acctsAll[r.Intn(len(acctsAll))], Strategy: strategies[r.Intn(len(strategies))], Follow: follows[r.Intn(len(follows))]}
 		if r.Chance(3) {
 			sc.Acct = "missing"
+		}
+		if r.Chance(45) {
+			sc.Env = []string{"weak", "custody", "execfee", "freeze"}[r.Intn(4)]
 		}
 		if sc.Mode == "raw-eth" {
 			sc.Msg = "ethereum_tx"
